@@ -423,7 +423,7 @@ pub fn run(ctx: &Ctx) -> i32 {
         acc.inconclusive(format!("overflow-checked build of the harness not found at {} (run ./check C04 or ./setup.sh)", chk));
     }
     let ncat = catalogue().len() as u64;
-    let plans: Vec<(&str, u64)> = vec![("catalogue", ncat), ("hostile-generated", ctx.tier.pick(1200, 30000)), ("corpus-mutants", ctx.tier.pick(400, 10000))];
+    let plans: Vec<(&str, u64)> = vec![("catalogue", ncat), ("hostile-generated", ctx.tier.pick(1200, 120000)), ("corpus-mutants", ctx.tier.pick(400, 40000))];
     for (workload, n) in plans {
         let shard = ((n + 31) / 32).max(1);
         let nshards = (n + shard - 1) / shard;
